@@ -30,20 +30,23 @@ func TestMain(m *testing.M) {
 
 // RunResult is the outcome of one simulated run.
 type RunResult struct {
-	Seed    uint64            `json:"seed"`
-	Engine  string            `json:"engine"`
-	Viol    *kernel.Violation `json:"violation,omitempty"`
-	Digest  string            `json:"digest"`
-	Steps   int               `json:"steps"`
-	SimTime time.Duration     `json:"sim_time_ns"`
-	Faults  map[string]int    `json:"faults,omitempty"`
-	Probes  map[string]int    `json:"probes,omitempty"`
-	Tape    []uint32          `json:"tape,omitempty"`
-	Sched   []string          `json:"schedule,omitempty"`
-	Trace   []string          `json:"trace,omitempty"`
-	Out     Outcome           `json:"-"`
-	Crash   string            `json:"crash,omitempty"`
+	Seed     uint64            `json:"seed"`
+	Engine   string            `json:"engine"`
+	Viol     *kernel.Violation `json:"violation,omitempty"`
+	Digest   string            `json:"digest"`
+	Steps    int               `json:"steps"`
+	SimTime  time.Duration     `json:"sim_time_ns"`
+	Faults   map[string]int    `json:"faults,omitempty"`
+	Probes   map[string]int    `json:"probes,omitempty"`
+	Tape     []uint32          `json:"tape,omitempty"`
+	Sched    []string          `json:"schedule,omitempty"`
+	Trace    []string          `json:"trace,omitempty"`
+	Out      Outcome           `json:"-"`
+	Crash    string            `json:"crash,omitempty"`
+	LogLines []string          `json:"-"`
 }
+
+var dumpLog bool
 
 func runOne(t *testing.T, c Case, tape *kernel.Tape) (res RunResult) {
 	res.Seed = tape.Seed
@@ -74,9 +77,14 @@ func runOne(t *testing.T, c Case, tape *kernel.Tape) (res RunResult) {
 				n := runtime.Stack(buf, false)
 				s.Fail(c.Prop+".panic", fmt.Sprintf("panic on the root: %v\n%s", r, buf[:n]))
 			}
+			s.Closing()
 			s.Drain()
 			res.Viol = s.Viol
-			res.Digest, _ = s.Digest()
+			var lines []string
+			res.Digest, lines = s.Digest()
+			if dumpLog {
+				res.LogLines = lines
+			}
 			res.Steps = s.Step
 			res.SimTime = s.Now()
 			res.Faults = s.Faults
@@ -161,6 +169,20 @@ func TestWorker(t *testing.T) {
 	}
 	outPath := os.Getenv("VERIF_OUT")
 	replayDir := os.Getenv("VERIF_REPLAY_DIR")
+	if one := os.Getenv("VERIF_ONE"); one != "" {
+		// debugging aid: run one (engine, seed) and dump the canonical log
+		eng, sd, _ := strings.Cut(one, ":")
+		seed, _ := strconv.ParseUint(sd, 10, 64)
+		for _, c := range cases {
+			if c.Engine == eng {
+				dumpLog = true
+				res := runOne(t, c, kernel.NewTape(seed))
+				fmt.Println(strings.Join(res.LogLines, "\n"))
+				fmt.Println("DIGEST", res.Digest, res.Viol)
+			}
+		}
+		return
+	}
 	if rp := os.Getenv("VERIF_REPLAY"); rp != "" {
 		doReplay(t, rp, outPath)
 		return
@@ -179,6 +201,9 @@ func TestWorker(t *testing.T) {
 	}
 
 	printStart := os.Getenv("VERIF_PRINT_START") != ""
+	if os.Getenv("VERIF_DUMP_DIR") != "" {
+		dumpLog = true
+	}
 	var weights []int
 	for _, c := range cases {
 		weights = append(weights, c.Weight)
@@ -217,6 +242,10 @@ func TestWorker(t *testing.T) {
 			stubSet[x] = true
 		}
 		res := runOne(t, c, kernel.NewTape(seed))
+		if dd := os.Getenv("VERIF_DUMP_DIR"); dd != "" {
+			os.MkdirAll(dd, 0o755)
+			os.WriteFile(fmt.Sprintf("%s/%s-%d.log", dd, c.Engine, seed), []byte(strings.Join(res.LogLines, "\n")+"\n"), 0o644)
+		}
 		spent[ci] += time.Since(runStart) + time.Microsecond
 		if k == 0 {
 			sum.FirstSeed = seed
